@@ -1794,6 +1794,9 @@ func updateArraySlice(v []any, m map[string]any, path []any, n any, a allocator)
 			copy(w[start+len(u):], v[end:])
 		}
 		copy(w[start:], u)
+		if len(u) > 0 && &u[0] != &w[start] {
+			a.free(u) // u is an array allocated for the slice and dropped here
+		}
 		return w, nil
 	case struct{}:
 		var w []any
